@@ -559,11 +559,24 @@ func buildSpace(name string, thorough bool, aux auxData) (*space, error) {
 		// (and the bracket ones, for comparison) x depth: read by the four
 		// readers with no limits in a reduced-stack reader-only worker, and
 		// loaded under limits in an ordinary worker
-		ds := readerDepthsFor(thorough)
-		size := int64(len(readerGens) * len(ds))
-		sp := &space{Name: name, Size: size, Batch: 1, Heavy: true, Case: func(i int64) kase {
-			g := readerGens[int(i)/len(ds)]
-			d := ds[int(i)%len(ds)]
+		type gd struct {
+			g evalGen
+			d int
+		}
+		var pairs []gd
+		for _, g := range readerGens {
+			for _, d := range readerDepthsFor(thorough) {
+				if flatReaderGens[g.name] && d > 1_000_000 {
+					// d sibling forms, not nesting: memory is linear in the
+					// input (about 350 bytes per form and reader), so 8*10^6
+					// forms only measure the worker's address-space limit
+					continue
+				}
+				pairs = append(pairs, gd{g, d})
+			}
+		}
+		sp := &space{Name: name, Size: int64(len(pairs)), Batch: 1, Heavy: true, Case: func(i int64) kase {
+			g, d := pairs[i].g, pairs[i].d
 			k := kase{Space: name, Idx: i, Mode: "read4", Limits: "none", Stack: readerStackCeiling, Stratum: fmt.Sprintf("%s/d=%d", g.name, d)}
 			if name == "reader-depth-load" {
 				k.Mode, k.Limits, k.Stack = "load", "fuzz", 0
